@@ -4659,7 +4659,8 @@ impl PeerConnectionInner {
                         if used_indices.contains(&idx) {
                             continue;
                         }
-                        if let Some(t_mid) = t.mid()
+                        if t.kind() == section.kind
+                            && let Some(t_mid) = t.mid()
                             && t_mid == *mid
                         {
                             found = Some((idx, t.clone()));
